@@ -19,6 +19,7 @@ canonical spelling, so a rule sees the same tree whichever one the author chose:
   D9  dict(m) / dict(m, **n) / dict(a=x) -> {**m} / {**m, **n} / {'a': x}
   D10 torch.where(logical_not(m) | ~m, x, y) -> torch.where(m, y, x)
   D11 x.dim() / x.ndim / x.ndimension()  -> len(x.shape) ; x.mT -> x.transpose(-1, -2)
+  D13 divmod(a, b)[0] / [1]              -> a // b / a % b
   D12 X.m(a, q=b) -> X.m(a, b) when q is the next positional parameter of every definition of method m in the package
 
 Only spelling is touched: every rewrite is an identity of the PyTorch / Python
@@ -226,6 +227,11 @@ class Canon(ast.NodeTransformer):
         if not isinstance(node.ctx, ast.Load):
             return node
         sl = node.slice
+        # D13 divmod(a, b)[0] / [1] -> a // b / a % b
+        if isinstance(node.value, ast.Call) and isinstance(node.value.func, ast.Name) and node.value.func.id == "divmod" and len(node.value.args) == 2 and not node.value.keywords \
+                and isinstance(sl, ast.Constant) and sl.value in (0, 1):
+            a, b = node.value.args
+            return self._hit(ast.BinOp(left=a, op=ast.FloorDiv() if sl.value == 0 else ast.Mod(), right=b), node)
         elts = list(sl.elts) if isinstance(sl, ast.Tuple) else [sl]
 
         def full(e):
